@@ -985,6 +985,32 @@ func (fr *Frame) loopMods(n *vnode) []modTarget {
 		}
 		comp, isMem := x.compOfAddr(addr)
 		if comp == "" {
+			// store of a whole struct value into a struct-typed field / object: all of its field components
+			if pt, ok := derefType(addr.Type()); ok {
+				if _, isStruct := pt.Underlying().(*types.Struct); isStruct {
+					var add func(t types.Type) bool
+					add = func(t types.Type) bool {
+						st := t.Underlying().(*types.Struct)
+						for i := 0; i < st.NumFields(); i++ {
+							f := st.Field(i)
+							switch f.Type().Underlying().(type) {
+							case *types.Struct:
+								if !add(f.Type()) {
+									return false
+								}
+							case *types.Array:
+								return false
+							default:
+								addWhole(fieldComp(typeKey(t), f.Name(), x.eng.SortOf(f.Type()), isRefType(f.Type())))
+							}
+						}
+						return true
+					}
+					if add(pt) {
+						return
+					}
+				}
+			}
 			everything = true
 			return
 		}
